@@ -277,6 +277,8 @@ class NumberedObjectCollection(ABC):
             raise TypeError("start_num must be an int")
         if not isinstance(step, int):
             raise TypeError("step must be an int")
+        if step == 0:
+            raise ValueError("step must not be 0")
         number = start_num
         while number in self.numbers:
             number += step
@@ -295,7 +297,7 @@ class NumberedObjectCollection(ABC):
             raise TypeError("step must be an int")
         if step <= 0:
             raise ValueError("step must be > 0")
-        return max(self.numbers) + step
+        return max(self.numbers, default=0) + step
 
     def __get_slice(self, i: slice):
         """Get a new NumberedObjectCollection over a slice of numbers
